@@ -1300,7 +1300,12 @@ impl Session {
     /// round-robin frames until `quiet` consecutive rounds without any received message (at most `max` rounds)
     pub fn drain(&mut self, max: u32, quiet: u32) -> bool {
         let mut silent = 0;
-        for _ in 0..max {
+        // a netcode handshake needs wall-clock time when a packet has to be sent again (every 250 ms): rounds
+        // spent waiting for one do not count against `max`, for at most 4 s per drain
+        let started = std::time::Instant::now();
+        let mut used = 0;
+        while used < max {
+            used += 1;
             self.received_in_round = 0;
             for p in 0..self.peers.len() {
                 if self.peers[p].is_setup {
@@ -1347,6 +1352,10 @@ impl Session {
                 cli || srv
             });
             if pending_net {
+                std::thread::sleep(std::time::Duration::from_millis(4));
+            }
+            if joining && started.elapsed() < std::time::Duration::from_secs(4) {
+                used -= 1;
                 std::thread::sleep(std::time::Duration::from_millis(4));
             }
             let busy = joining
